@@ -21,6 +21,8 @@ type PropSpec struct {
 
 var registry = map[string]*PropSpec{}
 
+var minimisedInProcess int
+
 func register(p *PropSpec) { registry[p.ID] = p }
 
 func init() {
@@ -89,7 +91,13 @@ func RunOne(spec *PropSpec, master uint64, run int, tier string, keepLog bool, s
 			res.Violation = nil
 			return res
 		}
-		m := Minimise(tr, same, 400)
+		// bounded work per process (the node leaks file descriptors per run): only the
+		// first few violations of a worker are minimised, later ones are saved as recorded
+		m := tr
+		minimisedInProcess++
+		if minimisedInProcess <= 4 {
+			m = Minimise(tr, same, 250)
+		}
 		os.MkdirAll(replayDir, 0o755)
 		p := filepath.Join(replayDir, fmt.Sprintf("replay-%s-%d-%d.json", spec.ID, master, run))
 		if err := m.Save(p); err == nil {
